@@ -52,6 +52,7 @@ class TracepointConfigService:
     def __init__(self) -> None:
         """Create new tracepoint config service."""
         self._custom: List['Trigger'] = []
+        self._custom_handles: Dict[str, 'Trigger'] = {}
         self._tracepoint_config: List['Trigger'] = []
         self._current_hash = None
         self._last_update = 0
@@ -161,12 +162,15 @@ class TracepointConfigService:
         :param metrics: the tracepoint metrics
         :return: the new TracePointConfig
         """
-        config = build_trigger(str(uuid.uuid4()), path, line, args, watches, metrics)
+        tp_id = str(uuid.uuid4())
+        config = build_trigger(tp_id, path, line, args, watches, metrics)
         if config is None:
             raise ValueError("Cannot interpret tracepoint arguments: %s" % args)
         self._custom.append(config)
+        # the handle is the unique tracepoint id (the location id is shared by every tracepoint on that line)
+        self._custom_handles[tp_id] = config
         self.__trigger_update(None, None)
-        return config.id
+        return tp_id
 
     def remove_custom(self, _id: str):
         """
@@ -174,8 +178,11 @@ class TracepointConfigService:
 
         :param _id: the id of the config to remove
         """
+        registered = self._custom_handles.pop(_id, None)
+        if registered is None:
+            return
         for idx, cfg in enumerate(self._custom):
-            if cfg.id == _id:
+            if cfg is registered:
                 del self._custom[idx]
                 self.__trigger_update(None, None)
                 return
